@@ -95,7 +95,7 @@ Proof. vm_compute. reflexivity. Qed.
 
 (** the unchanged code (flag on): a FAILURE receipt leaves the id in its timeout list and the final
     status FAILURE is overwritten with BEGIN_ROLLBACK at H+T; the C04 predicate is false on that trace *)
-Definition only_keeps_failed : Defects := Build_Defects true false false false false false false false false false.
+Definition only_keeps_failed : Defects := Build_Defects true false false false false false false false false false false.
 Theorem C04_timeout_keeps_failed_refuted :
   prop_on_model 4 only_keeps_failed w2 q2
      [IBlock [req 1 2 1 3]; IBlock [rcp 1 2 1 2]; IBlock []; IBlock []] = Some false /\
@@ -105,7 +105,7 @@ Theorem C04_timeout_keeps_failed_refuted :
 Proof. split; vm_compute; reflexivity. Qed.
 
 (** a receipt carrying a Group field (flag on): accepted, but never taken off the timeout list *)
-Definition only_receipt_group : Defects := Build_Defects false false false false false false false false false true.
+Definition only_receipt_group : Defects := Build_Defects false false false false false false false false false true false.
 Theorem C04_receipt_group_skip_refuted :
   prop_on_model 4 only_receipt_group w2 q2
      [IBlock [req 1 2 1 3]; IBlock [OIbtp (Build_ibtp 1 2 1 1 0%Z (Some (5, 2)) 0) true]; IBlock []; IBlock []] = Some false.
@@ -114,7 +114,7 @@ Proof. vm_compute. reflexivity. Qed.
 (** BeginInterBitXHub on a zero record (flag on): BEGIN_FAILURE -> ROLLBACK by a rollback notice *)
 Definition w_hub : world :=
   Build_world [Build_svc_info 0 1 true true true []; Build_svc_info 2 1 true true true []] [(2, false)] false.
-Definition only_zero_record : Defects := Build_Defects false true false false false false false false false false.
+Definition only_zero_record : Defects := Build_Defects false true false false false false false false false false false.
 Theorem C04_interbxh_zero_record_refuted :
   option_map (map o_st) (run only_zero_record w_hub q2 state_init
      [IBlock [req 1 2 1 3]; IBlock [OIbtp (Build_ibtp 1 2 1 0 0%Z None 2) true]])
